@@ -1,7 +1,7 @@
 """Base semantic model for pyvc: typed schema objects (class table), contracts, built-ins, containers, loops."""
 import ast
 import z3
-from .smt import Ref, NONE, fn, fresh, sort_name
+from .smt import Ref, NONE, fn, fresh, sort_name, forall as _forall
 from .types import *        # noqa
 from . import types as T
 from .pyvc import State, Outcome, Obligation, Contract, Executor, assigned_names
@@ -166,6 +166,8 @@ class Model:
     def setitem(self, ex, base, idx, val, st, node):
         if isinstance(base.ty, MapT) and isinstance(node.value, ast.Name):
             k = ex.coerce(idx, base.ty.key)
+            if val.ty is TUPLE or val.ty is PY:
+                val = self.opaque(ex, val, st)
             v = ex.coerce(val, base.ty.val)
             st.env[node.value.id] = self.map_store(ex, base, k, v, st)
             return True
@@ -219,6 +221,8 @@ class Model:
             key = p[1] + "." + attr
             if key in self.globals:
                 return self.globals[key]
+            if attr in self.classes:
+                return pyv(("class", attr))
             return pyv(("module", key))
         if isinstance(p, tuple) and p and p[0] == "class":
             q = p[1] + "." + attr
@@ -266,8 +270,8 @@ class Model:
                 if key not in st.facts:
                     st.facts.add(key)
                     qi = z3.Int("si")
-                    st.assume(z3.ForAll([qi], z3.Implies(z3.And(0 <= qi, qi < seq_len(v.term)), seq_at(v.term, qi, ty.elem) != NONE),
-                                        patterns=[seq_at(v.term, qi, ty.elem)]))
+                    st.assume(_forall([qi], z3.Implies(z3.And(0 <= qi, qi < seq_len(v.term)), seq_at(v.term, qi, ty.elem) != NONE),
+                                patterns=[seq_at(v.term, qi, ty.elem)]))
         elif isinstance(ty, MapT):
             self.map_facts(ex, v, st)
         elif isinstance(ty, ObjT):
@@ -292,18 +296,18 @@ class Model:
         st.assume(seq_len(ks) >= 0)
         st.assume(seq_len(vs) == seq_len(ks))
         if is_ref(ty.val) and not isinstance(ty.val, OptT):
-            st.assume(z3.ForAll([k], z3.Implies(map_has(m.term, k, ty.key), map_get(m.term, k, ty.key, ty.val) != NONE),
+            st.assume(_forall([k], z3.Implies(map_has(m.term, k, ty.key), map_get(m.term, k, ty.key, ty.val) != NONE),
                                 patterns=[map_get(m.term, k, ty.key, ty.val)]))
-            st.assume(z3.ForAll([i], z3.Implies(z3.And(0 <= i, i < seq_len(vs)), seq_at(vs, i, ty.val) != NONE),
+            st.assume(_forall([i], z3.Implies(z3.And(0 <= i, i < seq_len(vs)), seq_at(vs, i, ty.val) != NONE),
                                 patterns=[seq_at(vs, i, ty.val)]))
         # keys are exactly the present keys, pairwise distinct; values()[i] == get(keys()[i])
-        st.assume(z3.ForAll([i], z3.Implies(z3.And(0 <= i, i < seq_len(ks)),
+        st.assume(_forall([i], z3.Implies(z3.And(0 <= i, i < seq_len(ks)),
                                             z3.And(map_has(m.term, at(ks, i), ty.key),
                                                    seq_at(vs, i, ty.val) == map_get(m.term, at(ks, i), ty.key, ty.val))),
-                            patterns=[at(ks, i)]))
-        st.assume(z3.ForAll([k], z3.Implies(map_has(m.term, k, ty.key),
+                                patterns=[at(ks, i)]))
+        st.assume(_forall([k], z3.Implies(map_has(m.term, k, ty.key),
                                             z3.Exists([i], z3.And(0 <= i, i < seq_len(ks), at(ks, i) == k))),
-                            patterns=[map_has(m.term, k, ty.key)]))
+                                patterns=[map_has(m.term, k, ty.key)]))
         st.assume(z3.ForAll([i, j], z3.Implies(z3.And(0 <= i, i < j, j < seq_len(ks)), at(ks, i) != at(ks, j))))
 
     # ------------------------------------------------------------------ contracts
@@ -337,7 +341,9 @@ class Model:
         for name, tystr in c.params.items():
             if name not in args:
                 raise Unsupported(f"contract {c.qualname}: missing argument {name}")
-            env[name] = ex.coerce(args[name], parse_type(tystr)) if args[name].ty not in (PY, TUPLE) else args[name]
+            a = args[name]
+            is_pytype = a.ty is PY and isinstance(a.py, tuple) and a.py and a.py[0] == "pytype"
+            env[name] = ex.coerce(a, parse_type(tystr)) if (a.ty not in (PY, TUPLE) or is_pytype) else a
         return env
 
     def assume_contract(self, ex, c, args, result, st):
@@ -448,6 +454,8 @@ class Model:
                 return self.call_spec(ex, f.name, args, st)
         if isinstance(f, tuple) and f and f[0] == "class":
             return self.construct(ex, f[1], args, kwargs, st, node)
+        if isinstance(f, tuple) and f and f[0] == "excclass":
+            return pyv(("exc", f[1]))
         if isinstance(f, tuple) and f and f[0] == "pytype":
             return BUILTINS[f[1]](self, ex, args, kwargs, st, node)
         if isinstance(f, tuple) and f and f[0] == "lambda":
@@ -619,6 +627,8 @@ class Model:
         st.assume(z3.ForAll([y], map_has(n.term, y, ty.key) == z3.Or(map_has(m.term, y, ty.key), y == k.term)))
         st.assume(z3.ForAll([y], map_get(n.term, y, ty.key, ty.val) ==
                             z3.If(y == k.term, v.term, map_get(m.term, y, ty.key, ty.val))))
+        st.assume(seq_len(map_keys(n.term)) > 0)
+        st.assume(seq_len(map_keys(n.term)) == seq_len(map_values(n.term)))
         return n
 
     def make_list(self, ex, items, st):
@@ -631,8 +641,38 @@ class Model:
             return pyv(("emptydict",))
         return pyv(("dictlit", tuple(pairs)))
 
+    def empty_container(self, ex, ty, st):
+        """A fresh empty list/dict/set of a declared type (the contract's `locals` table gives the type)."""
+        v = V(fresh("empty", Ref), ty)
+        st.assume(v.term != NONE)
+        if isinstance(ty, SeqT):
+            st.assume(seq_len(v.term) == 0)
+        elif isinstance(ty, MapT):
+            k = z3.Const("ek", ty.key.sort())
+            st.assume(z3.ForAll([k], z3.Not(map_has(v.term, k, ty.key))))
+            st.assume(seq_len(map_keys(v.term)) == 0)
+            st.assume(seq_len(map_values(v.term)) == 0)
+        elif isinstance(ty, SetT):
+            x = z3.Const("ex", ty.elem.sort())
+            st.assume(z3.ForAll([x], z3.Not(set_mem(v.term, x, ty.elem))))
+        return v
+
+    def opaque(self, ex, v, st):
+        """Forget the structure of a python-side value: an unconstrained reference (sound over-approximation)."""
+        if v.ty is TUPLE or v.ty is PY:
+            o = V(fresh("opaque", Ref), ObjT("Opaque"))
+            st.assume(o.term != NONE)
+            return o
+        return v
+
     def comprehension(self, ex, e, st, kind):
-        raise Unsupported(f"{kind} comprehension at line {e.lineno}")
+        """Comprehensions are over-approximated: the iterables are evaluated (for their exceptions), the result is an
+        unconstrained fresh container.  Nothing about its contents can be proved from this."""
+        for g in e.generators:
+            ex.ev(g.iter, st)
+        o = V(fresh(kind + "comp", Ref), ObjT("Opaque"))
+        st.assume(o.term != NONE)
+        return o
 
     # ------------------------------------------------------------------ loops
     def loop_key(self, ex, kind):
@@ -982,9 +1022,30 @@ def _b_cast(model, ex, args, kwargs, st, node):
     return args[1]
 
 
+def _b_set(model, ex, args, kwargs, st, node):
+    if not args:
+        return pyv(("emptyset",))
+    raise Unsupported("set(iterable)")
+
+
+def _b_dict(model, ex, args, kwargs, st, node):
+    if not args and not kwargs:
+        return pyv(("emptydict",))
+    raise Unsupported("dict(...)")
+
+
+def _b_list(model, ex, args, kwargs, st, node):
+    if not args:
+        return pyv(("emptylist",))
+    if args[0].ty is TUPLE or isinstance(args[0].ty, SeqT):
+        return args[0]
+    raise Unsupported("list(iterable)")
+
+
 BUILTINS = {
     "isinstance": _b_isinstance, "len": _b_len, "bool": _b_bool, "str": _b_str, "any": _b_any, "all": _b_all,
     "next": _b_next, "tuple": _b_tuple, "getattr": _b_getattr, "cast": _b_cast, "issubclass": _b_issubclass,
+    "set": _b_set, "dict": _b_dict, "list": _b_list,
 }
 
 
@@ -1024,6 +1085,12 @@ def _b_quant(kind):
             lo, hi = args[1].term, args[2].term
             rng = z3.And(lo <= j, j < hi)
             t, facts = _lambda_body(model, ex, lam, st, [V(j, INT)])
+        elif len(args) == 2 and args[1].ty is PY and args[1].py == ("pytype", "str"):      # forall(lambda s: ..., str)
+            sv = fresh("qs", z3.StringSort())
+            t, facts = _lambda_body(model, ex, lam, st, [V(sv, STR)])
+            for fct in facts:
+                st.assume(z3.ForAll([sv], fct))
+            return V(z3.ForAll([sv], t) if kind == "forall" else z3.Exists([sv], t), BOOL)
         elif len(args) == 2 and isinstance(args[1].ty, SeqT):          # forall(lambda x: ..., seq)
             seq = args[1]
             rng = z3.And(0 <= j, j < seq_len(seq.term))
@@ -1120,7 +1187,13 @@ def _call(self, ex, fv, args, kwargs, st, node):
 
 
 def _native_symbolic_call(self, ex, f, args, kwargs, st, node):
-    return None
+    """A dependency function called with symbolic arguments: result unconstrained if the model lists it as pure."""
+    name = getattr(f, "__module__", "") + "." + getattr(f, "__qualname__", getattr(f, "__name__", "?"))
+    rty = self.opaque_natives.get(name) if hasattr(self, "opaque_natives") else None
+    if rty is None:
+        return None
+    ty = parse_type(rty)
+    return V(fresh("native", ty.sort()), ty)
 
 
 Model.call = _call
